@@ -551,13 +551,30 @@ UF[np.cos] = _elementwise(lambda a: a.cos(), _float_dt)
 UF[np.sin] = _elementwise(lambda a: a.sin(), _float_dt)
 
 
-def _reduce_cmp(a, axis, keepdims, f):
+def _canon_sorted(vals):
+    """operands of a commutative/associative fold in a canonical order (so that permuted runs build the same term)"""
+    from .core import key_of
+    def k(e):
+        if isinstance(e, SR):
+            return (0, str(e.v)) if e.is_conc else (1, key_of(e.z))
+        if isinstance(e, SC):
+            return (2, key_of(e.re.z) + '|' + key_of(e.im.z))
+        return (3, str(e))
+    try:
+        return sorted(vals, key=k)
+    except Exception:
+        return list(vals)
+
+
+def _reduce_cmp(a, axis, keepdims, f, canon=False):
     a = lift(a)
     arr = a._a
     if axis is None:
-        flat = arr.reshape(-1)
+        flat = list(arr.reshape(-1))
+        if canon:
+            flat = _canon_sorted(flat)
         acc = flat[0]
-        for i in range(1, flat.shape[0]):
+        for i in range(1, len(flat)):
             acc = f(acc, flat[i])
         b = np.empty((1,) * arr.ndim if keepdims else (), dtype=object)
         b[...] = acc
@@ -565,30 +582,34 @@ def _reduce_cmp(a, axis, keepdims, f):
     if isinstance(axis, (tuple, list)):
         r = a
         for ax in sorted([x % arr.ndim for x in axis], reverse=True):
-            r = _reduce_cmp(r, ax, True, f)
+            r = _reduce_cmp(r, ax, True, f, canon)
         if not keepdims:
             r = SymArray(r._a.squeeze(tuple(x % arr.ndim for x in axis)), r.dtype)
         return r
     axis = axis % arr.ndim
-    moved = np.moveaxis(arr, axis, 0)
-    acc = np.array(moved[0], dtype=object, copy=True)
-    for i in range(1, moved.shape[0]):
-        nxt = np.asarray(moved[i], dtype=object)
-        acc = _map(f, np.asarray(acc, dtype=object), nxt)
-    acc = np.asarray(acc, dtype=object)
+    moved = np.moveaxis(arr, axis, -1)
+    out = np.empty(moved.shape[:-1], dtype=object)
+    for idx in np.ndindex(out.shape):
+        vals = list(moved[idx])
+        if canon:
+            vals = _canon_sorted(vals)
+        acc = vals[0]
+        for v in vals[1:]:
+            acc = f(acc, v)
+        out[idx] = acc
     if keepdims:
-        acc = np.expand_dims(acc, axis)
-    return SymArray(acc, a.dtype)
+        out = np.expand_dims(out, axis)
+    return SymArray(out, a.dtype)
 
 
 @implements(np.amax, np.max)
 def _amax(a, axis=None, out=None, keepdims=False, **kw):
-    return _reduce_cmp(a, axis, keepdims, _scalar_max)
+    return _reduce_cmp(a, axis, keepdims, _scalar_max, canon=True)
 
 
 @implements(np.amin, np.min)
 def _amin(a, axis=None, out=None, keepdims=False, **kw):
-    return _reduce_cmp(a, axis, keepdims, _scalar_min)
+    return _reduce_cmp(a, axis, keepdims, _scalar_min, canon=True)
 
 
 @implements(np.all)
